@@ -273,6 +273,10 @@ class MockState:
 
         Line nodes are placed into child line block containers, based on their indentation.
         """
+        # (unlike in rST, the content of a MyST directive may start with a blank line,
+        # which has no indentation of its own)
+        if len(block) and getattr(block[0], "indent", None) is None:
+            block[0].indent = 0
         for index in range(1, len(block)):
             if getattr(block[index], "indent", None) is None:
                 block[index].indent = block[index - 1].indent
